@@ -144,7 +144,7 @@ def case_default_batches(ctx, r):
     for _ in range(4):
         p, q = r.range(0, n), r.range(0, n)
         ops.append(f"iter 0 {p} {q}")
-    ops += [f"iter 0 {n} 0", f"iter 0 0 {n}", f"iter 0 {K16 + 3} 2"]
+    ops += [f"iter 0 {n} 0", f"iter 0 0 {n}", f"iter 0 {min(K16 + 3, n)} 2"]
     stride = r.choice([3, 7, 11, 13, 257])
     while n % stride == 0:
         stride += 2
